@@ -10,6 +10,7 @@ package dastard
 // a later Start succeeds and delivers blocks.
 
 import (
+	"bytes"
 	"fmt"
 	"net"
 	"os"
@@ -44,8 +45,9 @@ type c10Case struct {
 
 // c10Endless produces Abaco packets for one channel group forever (two per read tick).
 type c10Endless struct {
-	cc   c03Case
-	next int
+	cc    c03Case
+	next  int
+	calls int
 }
 
 func (p *c10Endless) start() error        { return nil }
@@ -64,7 +66,48 @@ func (p *c10Endless) make(n int) []*packets.Packet {
 	return out
 }
 func (p *c10Endless) samplePackets(time.Duration) ([]*packets.Packet, error) { return p.make(4), nil }
-func (p *c10Endless) ReadAllPackets() ([]*packets.Packet, error)               { return p.make(2), nil }
+func (p *c10Endless) ReadAllPackets() ([]*packets.Packet, error) {
+	out := p.make(2)
+	p.calls++
+	if p.calls%2 == 0 {
+		// an external-trigger packet as the firmware sends them (recorded in the repository's test data)
+		if ext := c10ExtTrigPacket(); ext != nil {
+			if p.calls%4 == 0 {
+				out = append([]*packets.Packet{ext}, out...) // sometimes ahead of the data packets of the same read
+			} else {
+				out = append(out, ext)
+			}
+			if os.Getenv("VERIF_DEBUG") != "" {
+				fmt.Println("c10: external-trigger packet injected at call", p.calls)
+			}
+		} else if os.Getenv("VERIF_DEBUG") != "" {
+			fmt.Println("c10: no external-trigger packet available from", os.Getenv("VERIF_REPO_DIR"))
+		}
+	}
+	return out, nil
+}
+
+var c10ExtTrigBytes []byte
+
+// c10ExtTrigPacket decodes a fresh copy of the first external-trigger packet of testData/timer_packets.bin.
+func c10ExtTrigPacket() *packets.Packet {
+	if c10ExtTrigBytes == nil {
+		b, err := os.ReadFile(filepath.Join(os.Getenv("VERIF_REPO_DIR"), "testData", "timer_packets.bin"))
+		if err != nil {
+			c10ExtTrigBytes = []byte{}
+			return nil
+		}
+		c10ExtTrigBytes = b
+	}
+	if len(c10ExtTrigBytes) == 0 {
+		return nil
+	}
+	p, err := packets.ReadPacket(bytes.NewReader(c10ExtTrigBytes))
+	if err != nil || !p.IsExternalTrigger() {
+		return nil
+	}
+	return p
+}
 
 var c10Counter int
 
